@@ -190,7 +190,7 @@ def c06(run):
                 "over 25 classes and every sentence of <= 4 tokens with every single-token mutation; (literals) 23 malformed / out-of-range literal spellings x 10 syntactic positions; "
                 "(damage) 4 base programs with every byte replaced by each of 16 bytes, deleted or doubled; (scale) 11 shape families at limit-1, limit, limit+1 of the operand stack, "
                 "block nesting, variable count and jump distance, and out-of-domain operands (negative / 2^20 repeat counts, every division by zero, integer extremes, Inf/NaN). "
-                "Each input goes through Parse, Interpret, Unmarshal, ParseFile, InterpretFile, UnmarshalFile in a child process with a 10 s watchdog: a panic (recovered or process death) "
+                "(programs) the bind and blocks families of C03/C04. Each input goes through Parse, Interpret, Unmarshal, ParseFile, InterpretFile, UnmarshalFile (4096-byte pages) and InterpretFile in 8-byte reads each followed by a zero-byte read, in a child process with a 10 s watchdog: a panic (recovered or process death) "
                 "or a hang is a violation. Non-trivial = >= 2 bytes / every scaled case; distinct by input.")
     run.assumptions += ["bounded time is a 10 s watchdog per input, not a proof"]
     q = run.quick
@@ -200,6 +200,8 @@ def c06(run):
     run.gen_replay("Gen_Total", cfg(constants=dict(Scope="scale", MaxLen=1), invariants=("Emit",)), ["replay-total"], "C06:scale")
     run.gen_replay("Gen_Gram", gen_cfg(dict(Scope="all", MaxLen=3)), ["replay-total"], "C06:tokens")
     run.gen_replay("Gen_Gram", gen_cfg(dict(Scope="viable", MaxLen=3 if q else 4)), ["replay-total"], "C06:mutations")
+    run.gen_replay("Gen_Prog", gen_cfg(dict(Scope="bind", MaxItems=3)), ["replay-total"], "C06:programs-bind")
+    run.gen_replay("Gen_Prog", gen_cfg(dict(Scope="blocks", MaxItems=2)), ["replay-total"], "C06:programs-blocks")
     run.exhaustive = True
 
 
